@@ -2459,6 +2459,158 @@ theorem symSkip_inv (fuel i step S : Nat) (e : Engine M) (inputs : List (List Ca
         rw [← this]; exact hm
       exact r3 m (by rw [List.nil_append]; exact (mem_eraseDups_nat _ m).mpr hm')
 
+/-! ### the whole run of the fast simulator, any number of symbols -/
+
+/-- the state of all symbols in the middle of an iteration: the first `k` symbols hold `b` rows, the others `a` -/
+structure MidInvG (e : Engine M) (inputs : List (List Candle)) (t0 : Int) (nsym a b k : Nat) (len : Nat → Nat) : Prop where
+  done : ∀ s, s < k → s < nsym → EInv e s t0 ((inputs.getD s []).take b)
+  todo : ∀ s, k ≤ s → s < nsym → EInv e s t0 ((inputs.getD s []).take a)
+  spaced : ∀ s, s < nsym → ∀ j (h : j < (inputs.getD s []).length), (inputs.getD s [])[j].ts = t0 + 60000 * (j : Int)
+  lens : ∀ s, s < nsym → (inputs.getD s []).length = len s
+
+theorem symSkip_of_err (fuel i step : Nat) (acc : Engine M × List (List Candle)) (sym : Nat) (h : acc.1.err.isSome) :
+    symSkip u fuel i step acc sym = acc := by
+  unfold symSkip; rw [if_pos h]
+
+/-- the per-symbol loop of one iteration of the fast simulator, for the first `k` symbols -/
+theorem symSkipFold_inv (fuel i step S : Nat) (e : Engine M) (inputs : List (List Candle)) (t0 : Int) (len : Nat → Nat)
+    (hal : ∀ s, s < e.cfg.nsym → AlignedCfg e.cfg s t0) (hstep : 0 < step) (hstepS : step ≤ S) (hiS : i % S = 0)
+    (hdiv : ∀ s, s < e.cfg.nsym → ∀ m ∈ tfsRaw e.cfg s, S ∣ m)
+    (hil : ∀ s, s < e.cfg.nsym → i + step ≤ len s)
+    (h0 : MidInvG e inputs t0 e.cfg.nsym i (i + step) 0 len) :
+    ∀ k, k ≤ e.cfg.nsym →
+      ((List.range k).foldl (symSkip u fuel i step) (e, inputs)).1.err.isSome ∨
+      (((List.range k).foldl (symSkip u fuel i step) (e, inputs)).1.cfg = e.cfg ∧
+       MidInvG ((List.range k).foldl (symSkip u fuel i step) (e, inputs)).1 ((List.range k).foldl (symSkip u fuel i step) (e, inputs)).2
+         t0 e.cfg.nsym i (i + step) k len) := by
+  intro k
+  induction k with
+  | zero => intro _; right; exact ⟨rfl, h0⟩
+  | succ k ih =>
+    intro hk
+    rw [List.range_succ, List.foldl_append]
+    simp only [List.foldl_cons, List.foldl_nil]
+    rcases ih (by omega) with herr | ⟨hcfg, hm⟩
+    · left
+      rw [symSkip_of_err u fuel i step _ k herr]; exact herr
+    · revert hcfg hm
+      generalize (List.range k).foldl (symSkip u fuel i step) (e, inputs) = acc
+      intro hcfg hm
+      obtain ⟨e1, ins1⟩ := acc
+      dsimp only at hcfg hm ⊢
+      have hkn : k < e.cfg.nsym := by omega
+      have hlenk : i + step ≤ (ins1.getD k []).length := by rw [hm.lens k hkn]; exact hil k hkn
+      have hstepr := symSkip_inv u fuel i step S e1 ins1 k t0 (by rw [hcfg]; exact hal k hkn) hstep hstepS hiS
+        (by rw [hcfg]; exact hdiv k hkn) (hm.spaced k hkn) hlenk (hm.todo k (le_refl k) hkn)
+      have hos := StoreFrame.symSkip_os u fuel i step (e1, ins1) k
+      rcases hstepr with herr | ⟨g1, g2, g3, g4⟩
+      · left; exact herr
+      · right
+        refine ⟨by rw [g2, hcfg], ⟨?_, ?_, ?_, ?_⟩⟩
+        · intro s hs hsn
+          by_cases hsk : s = k
+          · subst hsk; exact g1
+          · have hin := (StoreFrame.symSkip_inputs u fuel i step (e1, ins1) k s hsk).1
+            rw [hin]
+            exact EInv.of_osame hos hsk (hm.done s (by omega) hsn)
+        · intro s hs hsn
+          have hsk : s ≠ k := by omega
+          have hin := (StoreFrame.symSkip_inputs u fuel i step (e1, ins1) k s hsk).1
+          rw [hin]
+          exact EInv.of_osame hos hsk (hm.todo s (by omega) hsn)
+        · intro s hsn
+          by_cases hsk : s = k
+          · subst hsk; exact g4
+          · have hin := (StoreFrame.symSkip_inputs u fuel i step (e1, ins1) k s hsk).1
+            rw [hin]; exact hm.spaced s hsn
+        · intro s hsn
+          by_cases hsk : s = k
+          · subst hsk; rw [g3]; exact hm.lens s hsn
+          · have hin := (StoreFrame.symSkip_inputs u fuel i step (e1, ins1) k s hsk).1
+            rw [hin]; exact hm.lens s hsn
+
+/-- ONE ITERATION OF THE FAST SIMULATOR, any number of symbols and timeframes, every strategy -/
+theorem skipAt_all (fuel i step S : Nat) (e : Engine M) (inputs : List (List Candle)) (t0 : Int) (len : Nat → Nat)
+    (hal : ∀ s, s < e.cfg.nsym → AlignedCfg e.cfg s t0) (hstep : 0 < step) (hstepS : step ≤ S) (hiS : i % S = 0)
+    (hdiv : ∀ s, s < e.cfg.nsym → ∀ m ∈ tfsRaw e.cfg s, S ∣ m)
+    (hil : ∀ s, s < e.cfg.nsym → i + step ≤ len s)
+    (hi : AllInv e inputs t0 e.cfg.nsym i len) :
+    (skipAt u fuel inputs e i step).1.err.isSome ∨
+    ((skipAt u fuel inputs e i step).1.cfg = e.cfg ∧
+     AllInv (skipAt u fuel inputs e i step).1 (skipAt u fuel inputs e i step).2 t0 e.cfg.nsym (i + step) len) := by
+  unfold skipAt
+  dsimp only
+  split
+  · left; assumption
+  · have h0 : MidInvG e inputs t0 e.cfg.nsym i (i + step) 0 len :=
+      ⟨fun s hs _ => absurd hs (by omega), fun s _ hsn => hi.inv s hsn, hi.spaced, hi.lens⟩
+    have h := symSkipFold_inv u fuel i step S e inputs t0 len hal hstep hstepS hiS hdiv hil h0 e.cfg.nsym (le_refl _)
+    rcases h with herr | ⟨hcfg, hm⟩
+    · left; exact routesStep_err u fuel _ i (i + step) herr
+    · right
+      have hs := StoreFrame.routesStep_ss u fuel
+        ((List.range e.cfg.nsym).foldl (symSkip u fuel i step) (e, inputs)).1 i (i + step)
+      exact ⟨by rw [hs.2]; exact hcfg, ⟨fun s hsn => EInv.of_same hs (hm.done s hsn hsn), hm.spaced, hm.lens⟩⟩
+
+/-- THE RUN OF THE FAST SIMULATOR — any number of symbols (input arrays of one common length `n`), any set of timeframes
+    per symbol, all of them multiples of the chunk size `step`, EVERY strategy: after each of the first `k` chunks every
+    symbol's store holds exactly its first `min (k * step) n` input rows (the first row of every chunk normalised) and
+    satisfies `StoreInv` for each of its timeframes — or the run has been stopped by an error. -/
+theorem runSkipN_all (fuel : Nat) (inputs : List (List Candle)) (e : Engine M) (t0 : Int) (step : Nat)
+    (hal : ∀ s, s < e.cfg.nsym → AlignedCfg e.cfg s t0) (hstep : 0 < step)
+    (hdiv : ∀ s, s < e.cfg.nsym → ∀ m ∈ tfsRaw e.cfg s, step ∣ m)
+    (hi : AllInv e inputs t0 e.cfg.nsym 0 (fun _ => (inputs.getD 0 []).length)) :
+    ∀ k, (∀ j, j < k → j * step < (inputs.getD 0 []).length) →
+      (runSkipN u fuel inputs e step k).1.err.isSome ∨
+      ((runSkipN u fuel inputs e step k).1.cfg = e.cfg ∧
+       AllInv (runSkipN u fuel inputs e step k).1 (runSkipN u fuel inputs e step k).2 t0 e.cfg.nsym
+         (min (k * step) (inputs.getD 0 []).length) (fun _ => (inputs.getD 0 []).length)) := by
+  intro k
+  induction k with
+  | zero =>
+    intro _
+    right
+    unfold runSkipN
+    simp only [List.range_zero, List.foldl_nil, Nat.zero_mul, Nat.zero_min]
+    have hs : StoreFrame.SSame e (saveDaily { e with time := (((inputs.getD 0 [])[0]?).map (·.ts)).getD 0 }) :=
+      StoreFrame.SSame.trans (⟨rfl, rfl⟩ : StoreFrame.SSame e { e with time := (((inputs.getD 0 [])[0]?).map (·.ts)).getD 0 })
+        (StoreFrame.saveDaily_ss _)
+    exact ⟨hs.2, ⟨fun s hsn => EInv.of_same hs (hi.inv s hsn), hi.spaced, hi.lens⟩⟩
+  | succ k ih =>
+    intro hk
+    have hstepEq : runSkipN u fuel inputs e step (k + 1) =
+        skipAt u fuel (runSkipN u fuel inputs e step k).2 (runSkipN u fuel inputs e step k).1 (k * step)
+          (min step ((inputs.getD 0 []).length - k * step)) := by
+      unfold runSkipN
+      dsimp only
+      rw [List.range_succ, List.foldl_append]
+      rfl
+    rw [hstepEq]
+    have hkn : k * step < (inputs.getD 0 []).length := hk k (by omega)
+    rcases ih (fun j hj => hk j (by omega)) with herr | ⟨h2, h1⟩
+    · left
+      unfold skipAt
+      rw [if_pos herr]; exact herr
+    · have hmin : min (k * step) (inputs.getD 0 []).length = k * step := Nat.min_eq_left (le_of_lt hkn)
+      rw [hmin] at h1
+      have hs' : 0 < min step ((inputs.getD 0 []).length - k * step) := by
+        rw [Nat.lt_min]; exact ⟨hstep, by omega⟩
+      have := skipAt_all u fuel (k * step) (min step ((inputs.getD 0 []).length - k * step)) step
+        (runSkipN u fuel inputs e step k).1 (runSkipN u fuel inputs e step k).2 t0 (fun _ => (inputs.getD 0 []).length)
+        (by rw [h2]; exact hal) hs' (Nat.min_le_left _ _) (Nat.mul_mod_left k step)
+        (by rw [h2]; exact hdiv)
+        (by rw [h2]; intro s _; have := Nat.min_le_right step ((inputs.getD 0 []).length - k * step); omega)
+        (by rw [h2]; exact h1)
+      have hnext : k * step + min step ((inputs.getD 0 []).length - k * step) = min ((k + 1) * step) (inputs.getD 0 []).length := by
+        rw [Nat.add_mul, Nat.one_mul]
+        omega
+      rcases this with herr | ⟨g2, g1⟩
+      · left; exact herr
+      · right
+        rw [h2] at g1
+        rw [hnext] at g1
+        exact ⟨by rw [g2, h2], g1⟩
+
 end run
 
 end C07
